@@ -102,6 +102,10 @@ def _replay_num(recs):
     return n, fails, classes, collections.Counter()
 
 
+# what get_opcode did, in the words of ScriptPush!Fetch
+_REPORT = {"ok": "ok", "bad": "malformed", "nonminimal": "nonminimal"}
+
+
 def _check_items(script, items, fails, detail, tag=""):
     """walk `script` with get_opcode and compare with the spec's instruction list; returns evaluations"""
     n = 0
@@ -116,9 +120,10 @@ def _check_items(script, items, fails, detail, tag=""):
             if g["res"] != "bad":
                 fails.append(("C12|get_opcode%s|truncated-%s|op=%s|expected=malformed|got=%s" % (tag, why, opx, g["res"]),
                               "get_opcode(%s, %d) reports %r; the push is cut short in its %s: malformed" % (script[:40].hex(), pc, g, why), detail))
-            if g2["res"] not in ("bad", "nonminimal"):
-                fails.append(("C12|get_opcode%s|vmin|truncated-%s|op=%s|expected=malformed|got=%s" % (tag, why, opx, g2["res"]),
-                              "get_opcode(%s, %d, verify_minimal_data=True) reports %r; the push is cut short: malformed" % (script[:40].hex(), pc, g2), detail))
+            if _REPORT.get(g2["res"], g2["res"]) != it["strict"]:
+                fails.append(("C12|get_opcode%s|vmin|truncated-%s|op=%s|size=%s|expected=%s|got=%s" % (tag, why, opx, sizecls, it["strict"], g2["res"]),
+                              "get_opcode(%s, %d, verify_minimal_data=True) reports %r; the push is cut short in its %s: %s "
+                              "(an instruction is fetched before the minimal-push rule is asked)" % (script[:40].hex(), pc, g2, why, it["strict"]), detail))
             break
         want = {"res": "ok", "op": it["op"], "data": drv.expand(it["val"]) if it["push"] else None, "pc": it["pc"]}
         if g != want:
@@ -435,6 +440,12 @@ def _walk(rnd, script, ev):
             ev.append({"a": "getop", "vmin": False, "res": g["res"], "op": g.get("op", -1), "pc": g.get("pc", -1),
                        "nodata": g.get("data") is None, "data": drv.rle(g["data"]) if g.get("data") is not None else [],
                        "_key": "op=%s|vmin=False|hdr_short=%s|size=%s|got=%s" % (opx, short, sizecls, g["res"])})
+        if g["res"] == "bad" and not vmin:
+            # the same cursor asked again with minimality required
+            g2 = drv.get_opcode(script, pc, True)
+            ev.append({"a": "getop", "vmin": True, "res": g2["res"], "op": g2.get("op", -1), "pc": g2.get("pc", -1),
+                       "nodata": g2.get("data") is None, "data": drv.rle(g2["data"]) if g2.get("data") is not None else [],
+                       "_key": "op=%s|vmin=True|hdr_short=%s|size=%s|got=%s" % (opx, short, sizecls, g2["res"])})
         if g["res"] != "ok" or g["pc"] <= pc:      # (a cursor that does not advance is in the log; TLC rejects it)
             break
         pc = g["pc"]
@@ -641,7 +652,10 @@ def run(ctx):
         r_push = {"k": "push", "d": [{"n": 76, "b": 7}], "enc": [{"n": 2, "b": 76}, {"n": 76, "b": 7}], "op": 76}
         r_parse = {"k": "parse", "cls": "raw", "script": [{"n": 1, "b": 2}, {"n": 2, "b": 9}], "d": [], "wf": True,
                    "items": [{"at": 0, "op": 2, "ok": True, "data": [{"n": 2, "b": 9}], "pc": 3, "push": True,
-                              "val": [{"n": 2, "b": 9}], "minok": True, "why": ""}]}
+                              "val": [{"n": 2, "b": 9}], "minok": True, "why": "", "plain": "ok", "strict": "ok"}]}
+        r_cut = {"k": "parse", "cls": "alttrunc", "script": [{"n": 1, "b": 76}, {"n": 1, "b": 5}, {"n": 1, "b": 9}], "d": [{"n": 5, "b": 9}],
+                 "wf": False, "items": [{"at": 0, "op": 76, "ok": False, "data": [], "pc": 2, "push": False, "val": [],
+                                         "minok": True, "why": "data truncated", "plain": "malformed", "strict": "malformed"}]}
         r_asm = {"k": "asm", "script": [{"n": 1, "b": 1}, {"n": 1, "b": 5}], "claimed": False, "text": "",
                  "toks": [{"t": "data", "d": [{"n": 1, "b": 5}], "name": ""}], "instr": [[1, 0, 2]]}
         ctx.selftest("replay_rejects_corrupted_expectation", all((
@@ -652,6 +666,8 @@ def run(ctx):
             sensitive(_replay_push, r_parse, "pc", 2, sub="items"),
             sensitive(_replay_push, r_parse, "minok", False, sub="items"),
             sensitive(_replay_push, r_parse, "ok", False, sub="items"),
+            sensitive(_replay_push, r_cut, "strict", "nonminimal", sub="items"),
+            sensitive(_replay_push, r_cut, "ok", True, sub="items"),
             sensitive(_replay_asm, r_asm, "claimed", True))))
 
     # 3. code -> spec
